@@ -108,7 +108,8 @@ CHECKS["C07"] = dict(
          "rref_preserv): the real residual builder runs in sympy mode on symbols, its output is translated to z3 and proved equivalent "
          "to the specification in both directions - equilibrium block in log space (residuals = 0 <=> A*log c = log K), conservation "
          "block (residuals = 0 <=> B*c = B*c0), transformed variants as f_X(y) == f_Lin(g(y)) - plus the equation count; a second "
-         "evaluation of the same instance with other constants must not be influenced by the first",
+         "evaluation of the same instance with other constants must not be influenced by the first; precipitation systems with the solid "
+         "declared present (Ksp over the dissolved species) or absent (amount pinned to `small`); EqSystem.equilibrium_quotients",
     note="positive concentrations/constants; sympy.expand_log(force=True) trusted for log(prod c^a)=sum a*log c; sympy Matrix.rank used by "
          "the count oracle; systems of 1-3 (thorough 1-5) equilibria from a pool of 18; NumSysLinTanh (not constructible on the pinned "
          "tree, not in the statement's list) outside; expressions the translator cannot read fall back to a concrete replay (never a "
